@@ -13,12 +13,10 @@ Variable ord : key -> list rkind.
 Variable syncp : key -> bool.
 Variable order : N -> key -> list dep -> list dep.
 Hypothesis Hrank : wf_rank rules rank.
-Hypothesis Hdisc : forall k, r_disc (rules k) = [].
+Hypothesis Hwfd : wf_disc rules.
 Hypothesis Hord : forall k, In RReq (ord k).
 Hypothesis Horder : wf_order order.
 
-Lemma nodisc_wf_disc : wf_disc rules.
-Proof. intros k d Hd. rewrite Hdisc in Hd. destruct Hd. Qed.
 
 (* one build: any state at rest of the specification engine, any state at rest of the small-step engine (they need not correspond:
    both builds return the clean value) *)
@@ -28,8 +26,8 @@ Theorem refines_spec_values env fuel ss k ss' ifuel pfuel s sched sf m : (rank k
   res_value (res_of sf k) = result_of ss' k.
 Proof.
   intros Hk HA Hb Hh Hi Hn.
-  rewrite (c01_incremental_eq_clean_thm rules env F order rank (fixedR rules) (fixedR_ok rules) Hrank nodisc_wf_disc Horder fuel ss k ss' Hk HA Hb).
-  exact (proj1 (build_values_clean rules F rank ord syncp Hrank Hdisc Hord env ifuel pfuel fuel s k sched sf m Hh Hi Hn) Hk).
+  rewrite (c01_incremental_eq_clean_thm rules env F order rank (fixedR rules) (fixedR_ok rules) Hrank Hwfd Horder fuel ss k ss' Hk HA Hb).
+  exact (proj1 (build_values_clean rules F rank ord syncp Hrank Hwfd Hord env ifuel pfuel fuel s k sched sf m Hh Hi Hn) Hk).
 Qed.
 
 (* the same history of builds run by the specification engine *)
@@ -52,9 +50,9 @@ Proof.
   - destruct (build rules (bs_env b) F order fuel ss (bs_root b)) as [ss'|? ?|] eqn:Hb; try discriminate.
     destruct (spec_builds fuel ss' bs) as [[sf' vs']|] eqn:Hrest; [|discriminate]. inversion Hrun. subst sf vs.
     assert (Hk : (rank (bs_root b) < fuel)%nat) by (apply Hrk; now left).
-    rewrite (c01_incremental_eq_clean_thm rules (bs_env b) F order rank (fixedR rules) (fixedR_ok rules) Hrank nodisc_wf_disc Horder fuel ss _ ss' Hk HA Hb).
+    rewrite (c01_incremental_eq_clean_thm rules (bs_env b) F order rank (fixedR rules) (fixedR_ok rules) Hrank Hwfd Horder fuel ss _ ss' Hk HA Hb).
     cbn [map]. f_equal. apply (IH ss' sf' vs'); auto; [|intros b' Hb'; apply Hrk; now right].
-    apply (c01_build_preserves_thm rules (bs_env b) F order rank (fixedR rules) (fixedR_ok rules) Hrank nodisc_wf_disc Horder fuel ss _ ss' Hk HA Hb).
+    apply (c01_build_preserves_thm rules (bs_env b) F order rank (fixedR rules) (fixedR_ok rules) Hrank Hwfd Horder fuel ss _ ss' Hk HA Hb).
 Qed.
 
 (* both engines from their initial states, the same list of builds (environment, requested key; the small-step engine with any
@@ -64,7 +62,7 @@ Theorem refines_spec_history fuel bs ssf vs1 sf vs2 : (forall b, In b bs -> (ran
 Proof.
   intros Hrk H1 H2.
   rewrite (spec_builds_clean fuel bs init_state ssf vs1 (AtRest_init F (fixedR rules)) H1 Hrk).
-  exact (proj1 (history_values_clean rules F rank ord syncp Hrank Hdisc Hord fuel bs init_istate sf vs2 (HInv_init rules F) H2 Hrk)).
+  exact (proj1 (history_values_clean rules F rank ord syncp Hrank Hwfd Hord fuel bs init_istate sf vs2 (HInv_init rules F) H2 Hrk)).
 Qed.
 End Ref.
 
@@ -78,7 +76,7 @@ Lemma srun7_eq : spec_builds R7 mixF order_id 5 init_state H7 = Some (send7, sva
 Proof. vm_compute. reflexivity. Qed.
 Example history7_refines : vals7 = svals7.
 Proof.
-  pose proof (refines_spec_history R7 mixF rank6 ord0 all_sync order_id R7_ranked R7_nodisc ord0_ok order_id_ok 5 H7 send7 svals7 end7 vals7 H7_ranks) as H.
+  pose proof (refines_spec_history R7 mixF rank6 ord6 all_sync order_id R7_ranked R7_wfdisc ord6_ok order_id_ok 5 H7 send7 svals7 end7 vals7 H7_ranks) as H.
   specialize (H srun7_eq). specialize (H run7_eq). exact H.
 Qed.
 Example history7_refines_computed : vals7 = svals7 /\ length svals7 = 5%nat /\ ~ In None svals7.
